@@ -50,7 +50,7 @@ package server
 //@ ensures[failed-shape] result0 != nil ==> failedFor(result0, opID)
 //@ ensures[missing-id] opElecID == nil ==> result2 != nil && errCode(result2) == codes.FailedPrecondition
 //@ assigns nothing
-//@ props C04 C09 C12:safety
+//@ props C04 C09 C12:safety C12:ensures#missing-id C12:ensures#reject-one C12:ensures#failed-shape
 
 //@ pred flushReason(e error) = errDetail(e).(*spb.FlushResponseError).Status
 
@@ -78,7 +78,7 @@ package server
 //@   && u128(req.GetId().High, req.GetId().Low) != 0 && u128(req.GetId().High, req.GetId().Low) >= u128(s.curElecID.High, s.curElecID.Low)
 //@   ==> result0 == nil
 //@ assigns nothing
-//@ props C08 C11:lock C12:safety
+//@ props C08 C11:lock C12:safety C12:ensures#nil-req C12:ensures#no-ni C12:ensures#zero-id
 
 //@ pred modifyReason(e error) = errDetail(e).(*spb.ModifyRPCErrorDetails).Reason
 
@@ -241,7 +241,7 @@ package server
 //@ loop 2 at "range faileds" invariant fibOnlyAfterRib(results) && ribThenFib(results, fibACK) && statusesKnown(results)
 //@ loop 2 invariant resultsOK(faileds) && op != nil
 //@ assigns ribState, spawned, hookCount
-//@ props C04 C06 C01 C12:safety
+//@ props C04 C06 C01 C12:safety C12:ensures#nil-op C12:ensures#bad-op-type C12:ensures#unauthorised-no-rib C12:ensures#unauthorised-answer C12:ensures#one-of
 
 //@ pred resultsOK(rs []*rib.OpResult) = forall i in 0..len(rs) :: rs[i] != nil
 
@@ -265,7 +265,7 @@ package server
 //@ loop 1 invariant len(sent(errCh)) >= old(len(sent(errCh))) && len(sent(resCh)) >= old(len(sent(resCh)))
 //@ loop 1 invariant ribReady(s.masterRIB) && s.masterRIB != nil && supportedSession(cs) && elec != nil
 //@ assigns sent(resCh), sent(errCh), ribState, spawned, hookCount
-//@ props C06 C04 C09 C12:safety
+//@ props C06 C04 C09 C12:safety C12:ensures#unknown-client C12:ensures#unsupported-mode C12:ensures#one-answer-per-op C12:ensures#rib-ready
 
 //@ fnfield unixTS
 //@ why the clock returns an arbitrary int64
@@ -292,7 +292,7 @@ package server
 //@ ensures[one-of] (result0 == nil) != (result1 == nil)
 //@ ensures[election-untouched] s.curElecID == old(s.curElecID) && s.curMaster == old(s.curMaster)
 //@ assigns ribState, hookCount
-//@ props C08 C12:safety
+//@ props C08 C12:safety C12:ensures#nil-req C12:ensures#no-ni C12:ensures#unknown-ni C12:ensures#election-gated C12:ensures#one-of
 
 // Session footprint: whatever happens on the stream, the RPC leaves the session table as it found it
 // (the state created for the session is removed on every exit after newClient succeeded).
@@ -338,7 +338,7 @@ package server
 //@ ensures[ends-with-verdict] len(sent(errCh)) > old(len(sent(errCh)))
 //@ ensures[other-sessions-untouched] forall k in old(dom(s.cs)) :: k != cid ==> k in dom(s.cs) && s.cs[k] == old(s.cs[k])
 //@ assigns sent(errCh), sent(resultChan), ribState, hookCount, spawned, s.curElecID, s.curMaster, s.cs[cid].params, s.cs[cid].setParams, s.cs[cid].lastElecID, nRecv, lastMulti, resAtRecv, ribAtRecv, elecAtRecv, masterAtRecv
-//@ props C09 C12:safety C11:lock
+//@ props C09 C12:safety C11:lock C12:ensures#multi-field-rejected C12:ensures#multi-field-no-effect C12:ensures#other-sessions-untouched
 
 // ---- BEGIN Get (C07), generated by /verif/tools/gen_get_contracts.py ----
 //@ ghostvar gotNI StrSet
@@ -395,5 +395,5 @@ package server
 //@ loop 1 invariant (req != nil && istype(req.NetworkInstance, *spb.GetRequest_Name)) && loopi == 1 && recvd(stopCh) == old(recvd(stopCh)) && (req.Aft == spb.AFTType_ALL || req.Aft == spb.AFTType_NEXTHOP_GROUP) ==> forall k in dom(s.masterRIB.niRIB[req.GetName()].r.Afts.NextHopGroup) :: old(len(sent(msgCh))) <= getpos_nhg[k] && getpos_nhg[k] < len(sent(msgCh)) && msg_nhg(sent(msgCh)[getpos_nhg[k]], req.GetName()) && key_nhg(sent(msgCh)[getpos_nhg[k]]) == k
 //@ loop 1 invariant (req != nil && istype(req.NetworkInstance, *spb.GetRequest_Name)) && loopi == 1 && recvd(stopCh) == old(recvd(stopCh)) && (req.Aft == spb.AFTType_ALL || req.Aft == spb.AFTType_NEXTHOP) ==> forall k in dom(s.masterRIB.niRIB[req.GetName()].r.Afts.NextHop) :: old(len(sent(msgCh))) <= getpos_nh[k] && getpos_nh[k] < len(sent(msgCh)) && msg_nh(sent(msgCh)[getpos_nh[k]], req.GetName()) && key_nh(sent(msgCh)[getpos_nh[k]]) == k
 //@ assigns sent(msgCh), sent(errCh), sent(doneCh), recvd(stopCh), gotNI, getpos_v4, getpos_v6, getpos_mpls, getpos_nhg, getpos_nh
-//@ props C07 C12:safety C11:lock
+//@ props C07 C12:safety C11:lock C12:ensures#nil-req C12:ensures#empty-name C12:ensures#unknown-instance C12:ensures#unsupported-table C12:ensures#rib-untouched C12:ensures#done-once
 // ---- END Get (C07) ----
